@@ -8,7 +8,7 @@ import HcipyVerif.Model.Interp
 lin-sep new|old ext|fill <sep> <vals> <pts>     sep = [x-axis];[y-axis];…  pts = [x,y];[x,y];…
 near-sep new|old <sep> <vals> <pts>             -> ok [v,nan,…]   (nan = fill value / outside)
 lin-tri <[ax,ay,bx,by,cx,cy]> <[va,vb,vc]> <[px,py]>   -> ok v | ok nan (degenerate simplex)
-near-uns <pts> <vals> <evalpts>                 -> ok [values of all minimisers];[…]
+near-uns <pts> <vals> <evalpts>                 -> ok [values of all minimisers];[…] first [nearestUnstructured values]
 bin sum|mean <s> <dims> <vals>                  -> ok [..] | err value
 binw <s> <dims> <vals> <weights>                weighted mean (non-regular grids)
 bint <s> <dims> <ncomp> <vals>                  tensor field, statistic sum
@@ -67,7 +67,8 @@ def step (st : St) : List String → St × String
     match parseRatLists? pts, parseRatList? vals, parseRatLists? ev with
     | some pts, some vals, some ev =>
       if pts.length ≠ vals.length || pts.isEmpty then (st, "err value") else
-      (st, "ok " ++ showRatLists (ev.map fun p => (minimisers pts p).map fun i => vals.getD i 0))
+      (st, "ok " ++ showRatLists (ev.map fun p => (minimisers pts p).map fun i => vals.getD i 0)
+        ++ " first " ++ showOpts (ev.map (nearestUnstructured pts vals)))
     | _, _, _ => (st, "bad-op")
   | ["bin", stat, s, dims, vals] =>
     match parseNat? s, parseNatList? dims, parseRatList? vals with
